@@ -981,6 +981,142 @@ def check_C15(run):
                                'length 3 (TLC-generated) plus random histories with a counting policy; distinct = distinct cases')
 
 
+# ===========================================================================
+# C07 / C08: tables
+
+
+def is_vpool(tid):
+    return tid.startswith('TV_')
+
+
+def rep_value(S, rng=None, k=0):
+    """A representative value (vector entries hold exactly as many elements as their array spelling)."""
+    kd = S["k"]
+    if kd in ("int", "enum"):
+        return word(200 + k, S["w"])
+    if kd == "str":
+        return {"cw": S["cw"], "b": [71 + (k % 5), 105] * 1}
+    if kd == "vec":
+        return {"n": [rep_value(S["e"], rng, k + i) for i in range(2)]}
+    if kd == "arr":
+        return {"n": [rep_value(S["e"], rng, k + i) for i in range(S["n"])]}
+    if kd in ("struct", "tup", "pair"):
+        return {"m": [rep_value(m, rng, k + i) for i, m in enumerate(S["m"])]}
+    if kd == "table":
+        return {"t": [({"id": e["id"], "p": True, "v": rep_value(e["e"], rng, k + i)} if e["act"] else {"id": e["id"], "p": False})
+                      for i, e in enumerate(S["ents"])]}
+    raise ValueError(kd)
+
+
+def table_patterns(S, v, which):
+    """Assignments of empty / non-empty to the active entries of table value v; `which` selects bit patterns."""
+    act = [i for i, e in enumerate(S["ents"]) if e["act"]]
+    out = []
+    for bits in which:
+        t = []
+        for i, e in enumerate(S["ents"]):
+            if i in act and (bits >> act.index(i)) & 1:
+                t.append(v["t"][i])
+            else:
+                t.append({"id": e["id"], "p": False})
+        out.append({"t": t})
+    return out
+
+
+def check_C07(run):
+    exe, types_path = vf.get_exe(run, 'plain')
+    types = load_types(types_path)
+    thorough = run.tier == 'thorough'
+    rng = random.Random(run.seed)
+    fut = start_model_check(run, 'MC_Tables', 'MC_Tables.cfg', workers=8, timeout=1500)
+    vts = [t for t in types if is_vpool(t)]
+    placed = [t for t in types if t.startswith('S_TV_')] + [t for t in types if t.startswith('vec<TV_')]
+    groups = []
+    n = 0
+    rks = ["pedantic", "sstream", "buffer", {"bounded": "pedantic", "limit": BIGCAP}, "fstream"]
+    sentinel = {"tid": "u16", "v": [0xCD, 0xAB]}
+    for wt in vts:
+        S = types[wt]
+        full = rep_value(S, rng, n % 7)
+        nact = sum(1 for e in S["ents"] if e["act"])
+        allbits = list(range(1 << nact))
+        for rt in vts:
+            if thorough:
+                bits = allbits
+            else:
+                # all-present plus one rotating pattern per ordered pair; every pattern of W is used against some R
+                bits = sorted(set([(1 << nact) - 1, allbits[n % len(allbits)]]))
+            for v in table_patterns(S, full, bits):
+                w = {"c": "w", "wk": "pedantic", "cap": 4096, "items": [{"tid": wt, "v": v}, sentinel], "nolog": 1}
+                r = {"c": "r", "rk": rks[n % len(rks)], "src": "last", "items": [{"tid": rt}, {"tid": "u16"}], "nolog": 1}
+                groups.append([w, r])
+                n += 1
+        run.distinct.add(wt)
+    # tables nested in structures and vectors
+    for kind in ("S_TV_", "vec<TV_"):
+        ps = [t for t in placed if t.startswith(kind)]
+        for wt in ps:
+            S = types[wt]
+            for rt in ps:
+                if kind == "S_TV_":
+                    tv = rep_value(S["m"][1], rng, 1)
+                    v = {"m": [[7], tv, [1, 2]]}
+                else:
+                    tv = rep_value(S["e"], rng, 2)
+                    v = {"n": [tv, table_patterns(S["e"], tv, [1])[0], tv]}
+                w = {"c": "w", "wk": "pedantic", "cap": 4096, "items": [{"tid": wt, "v": v}, sentinel], "nolog": 1}
+                r = {"c": "r", "rk": rks[n % len(rks)], "src": "last", "items": [{"tid": rt}, {"tid": "u16"}], "nolog": 1}
+                groups.append([w, r])
+                n += 1
+    cmds = with_group_resets(groups, 100)
+    run.samples = groups[0] + groups[len(groups) // 2]
+    run.distinct = set(vf.digest(g) for g in groups)
+    run.exhaustive = thorough
+    trace = vf.exec_commands(run, exe, cmds, 'c07')
+    rejected = vf.tlc_validate(run, 'TrCodec', 'TrCodec.cfg', trace, env_for('C07', types_path))
+    add_rejections(run, rejected, key_codec('C07'), index_cmds(cmds))
+    fut.result()
+    return vf.finish(run, rule='every ordered pair (writer, reader) of the %d table definitions reachable within 4 evolution '
+                               'steps in Tables.tla (TLC-emitted version pool) x assignments of empty/non-empty to the writer\'s '
+                               'entries (all-present + rotating pattern; all 2^k patterns in the thorough tier), followed by a '
+                               'sentinel value, plus tables nested in structures and vectors; distinct = distinct (pair, value)'
+                               % len(vts))
+
+
+def check_C08(run):
+    exe, types_path = vf.get_exe(run, 'plain')
+    types = load_types(types_path)
+    thorough = run.tier == 'thorough'
+
+    def ok_kind(S):
+        return all(x["k"] in ("int", "enum", "str", "vec", "arr", "struct", "tup", "pair", "table", "char", "bool") for x in walk(S))
+    tids = [t for t, S in types.items() if S["k"] == "table" and ok_kind(S) and "hash" in S]
+    vp = [t for t in tids if is_vpool(t)]
+    other = [t for t in tids if not is_vpool(t)]
+    rng = random.Random(run.seed)
+    chosen = other + (vp if thorough else vp[::3])
+    tids_path = os.path.join(run.work, 'tids.json')
+    with open(tids_path, 'w') as f:
+        json.dump(chosen, f)
+    os.environ["TYPES"] = types_path
+    os.environ["TIDS"] = tids_path
+    muts = vf.tlc_generate(run, 'Gen_TableMut', {}, timeout=900)
+    rks = ["pedantic", "sstream", "buffer", {"bounded": "pedantic", "limit": BIGCAP}, "fstream", {"bounded": "sstream", "limit": BIGCAP}]
+    cmds = []
+    for i, m in enumerate(muts):
+        cmds.append({"c": "r", "rk": rks[i % len(rks)], "src": {"b": m["b"]}, "items": [{"tid": m["tid"]}], "nolog": 1,
+                     "tag": {"cat": True, "label": m["label"]}})
+        run.distinct.add((m["tid"], m["label"]))
+    cmds = with_resets(cmds, 100)
+    run.samples = cmds[1:4]
+    run_codec(run, 'C08', cmds)
+    return vf.finish(run, rule='TLC-generated table encodings (Gen_TableMut.tla) for %d table types x every assignment of '
+                               'empty/non-empty entries x {valid, reversed order, bad hash, count +-1, unknown entries, duplicate '
+                               'entry, padded entry, declared size too large/small/zero/huge, corrupt value, value truncated inside '
+                               'its frame}, read through pedantic/stream/buffer/bounded readers and judged by Dec; distinct = '
+                               'distinct (type, mutation)' % len(chosen))
+
+
 def replay(run, path):
     with open(path) as f:
         rp = json.load(f)
